@@ -39,6 +39,7 @@ def run_path(ctx, entry, prefix, path_id=0):
     err = ""
     try:
         entry(it)
+        it.cover("end-of-entry")
     except PathEnd:
         pass
     except PyRaise as e:
@@ -150,8 +151,19 @@ def summarize(obligations):
     """group obligation instances (one per path) by name -> worst status"""
     out = {}
     order = {"proved": 0, "unknown": 1, "cex-ground": 2, "refuted": 3}
+    corder = {"covered": 0, "unknown": 1, "vacuous": 2}
     for o in obligations:
         cur = out.get(o["name"])
+        if o["name"].startswith("cover/"):
+            # vacuity guards: best status over the paths that reach the site
+            if cur is None:
+                cur = out[o["name"]] = {"status": o["status"], "instances": 0, "props": o["props"], "backends": {}, "seconds": 0.0, "detail": ""}
+            cur["instances"] += 1
+            cur["seconds"] += o["seconds"]
+            cur["backends"][o["backend"]] = cur["backends"].get(o["backend"], 0) + 1
+            if corder[o["status"]] < corder[cur["status"]]:
+                cur["status"] = o["status"]
+            continue
         if cur is None:
             cur = out[o["name"]] = {"status": o["status"], "instances": 0, "props": o["props"], "backends": {},
                                     "seconds": 0.0, "detail": ""}
